@@ -286,6 +286,7 @@ fn check_reset<S: Subject>(plan: &Plan, ctx: &Ctx, stats: &mut Stats, shape: &TS
 
 fn add<S: Subject>(jobs: &mut Vec<Box<dyn JobT>>, shape: TShape, q: u64, t: u64, floor: f64) {
     let pc = PlanCfg::new(Weights::mixed().with_probe(30)).steps(8, 30).editors(2, 4);
+    let pc = pc.long_share(S::LONG);
     let ctx = Ctx::new(S::NEEDS).newest();
     let label = format!("{}/{:?}/reachable states x relative clocks", S::name(), S::NEEDS);
     jobs.push(job(label, q, t, { let pc = pc.clone(); move || plan_strategy(&pc) }, move |p: &Plan, st: &mut Stats| check_reset::<S>(p, &ctx, st, &shape)).decoder({ let pc = pc.clone(); move |d: &[u8]| decode_plan(&pc, d) })
@@ -296,9 +297,12 @@ fn add<S: Subject>(jobs: &mut Vec<Box<dyn JobT>>, shape: TShape, q: u64, t: u64,
 pub fn property() -> Property {
     let mut jobs: Vec<Box<dyn JobT>> = Vec::new();
     add::<SOrswot>(&mut jobs, TShape::Set, 24000, 250_000, 0.02);
+    add::<SOrswotBig>(&mut jobs, TShape::Set, 6000, 62500, 0.01);
     add::<SMVReg>(&mut jobs, TShape::Reg, 24000, 250_000, 0.02);
     add::<MapOrswot>(&mut jobs, TShape::MapOf(Box::new(TShape::Set)), 24000, 250_000, 0.02);
+    add::<MapOrswotBig>(&mut jobs, TShape::MapOf(Box::new(TShape::Set)), 6000, 62500, 0.01);
     add::<MapMVReg>(&mut jobs, TShape::MapOf(Box::new(TShape::Reg)), 24000, 250_000, 0.02);
+    add::<MapMVRegBig>(&mut jobs, TShape::MapOf(Box::new(TShape::Reg)), 6000, 62500, 0.01);
     add::<MapMapMVReg>(&mut jobs, TShape::MapOf(Box::new(TShape::MapOf(Box::new(TShape::Reg)))), 16000, 100_000, 0.02);
     add::<SVClock>(&mut jobs, TShape::Clock, 12000, 100_000, 0.02);
     add::<SGCounter>(&mut jobs, TShape::Clock, 12000, 100_000, 0.02);
